@@ -1269,30 +1269,42 @@ def checkDepTName (v : Variant) (m : Module) : VarType → Res VarType
     else .ok (.array k l)
   | t => .ok t
 
+/-- `analyzeDefault` on one struct -/
+def defaultsOf (v : Variant) (m : Module) (st : Struct) : Res Struct := do
+  let mb ← mapRes (analyzeDefaultMember v m) st.mb
+  pure ({ st with mb := mb } : Struct)
+
+/-- `analyzeTName` on one struct -/
+def typesOf (v : Variant) (m1 : Module) (st : Struct) : Res Struct := do
+  let mb ← mapRes (fun (x : StructMember) => do
+    let t ← checkDepTName v m1 x.type
+    pure { x with type := t }) st.mb
+  pure ({ st with mb := mb } : Struct)
+
+/-- `analyzeTName` on one function: arguments, then the return type -/
+def funcTypes (v : Variant) (m1 : Module) (fn : Func) : Res Func := do
+  let args ← mapRes (fun (a : Arg) => do
+    let t ← checkDepTName v m1 a.type
+    pure { a with type := t }) fn.args
+  let ret ← (match fn.retType with
+    | none => Res.ok none
+    | some t => (checkDepTName v m1 t).bind fun t' => Res.ok (some t'))
+  pure ({ fn with args := args, retType := ret } : Func)
+
+/-- `analyzeTName` on one interface -/
+def ifaceTypes (v : Variant) (m1 : Module) (itf : Interface) : Res Interface := do
+  let fs ← mapRes (funcTypes v m1) itf.funcs
+  pure ({ itf with funcs := fs } : Interface)
+
 /-- `analyzeDefault` then `analyzeTName` -/
-def analyze (v : Variant) (f : TarsFile) : Res TarsFile := do
+def analyze (v : Variant) (f : TarsFile) : Res TarsFile :=
   if f.includes ≠ [] then .unsupported "include"
   else do
     let m := f.module
-    let structs1 ← mapRes (fun st => do
-      let mb ← mapRes (analyzeDefaultMember v m) st.mb
-      pure ({ st with mb := mb } : Struct)) m.structs
+    let structs1 ← mapRes (defaultsOf v m) m.structs
     let m1 := { m with structs := structs1 }
-    let structs2 ← mapRes (fun st => do
-      let mb ← mapRes (fun (x : StructMember) => do
-        let t ← checkDepTName v m1 x.type
-        pure { x with type := t }) st.mb
-      pure ({ st with mb := mb } : Struct)) m1.structs
-    let ifs ← mapRes (fun (itf : Interface) => do
-      let fs ← mapRes (fun (fn : Func) => do
-        let args ← mapRes (fun (a : Arg) => do
-          let t ← checkDepTName v m1 a.type
-          pure { a with type := t }) fn.args
-        let ret ← (match fn.retType with
-          | none => Res.ok none
-          | some t => (checkDepTName v m1 t).bind fun t' => Res.ok (some t'))
-        pure ({ fn with args := args, retType := ret } : Func)) itf.funcs
-      pure ({ itf with funcs := fs } : Interface)) m1.interfaces
+    let structs2 ← mapRes (typesOf v m1) m1.structs
+    let ifs ← mapRes (ifaceTypes v m1) m1.interfaces
     pure { f with module := { m1 with structs := structs2, interfaces := ifs } }
 
 /-- `parse.NewParse` on the contents of one file: lexing, `parse`, `analyzeDepend` -/
@@ -1790,5 +1802,43 @@ def Prog.structDecls (p : Prog) : List GStruct := p.decls.filterMap GDecl.struct
 
 /-- the members a struct declaration declares (declaration order) -/
 def GStruct.declared (s : GStruct) : List FieldSchema := s.fields.map fun f => f.ast.schema
+
+/-! ### Semantic side conditions of the supported language -/
+
+/-- the type names used in a type expression -/
+def GTy.names : GTy → List Bytes
+  | .named n => [n]
+  | .vector t => t.names
+  | .map a b => a.names ++ b.names
+  | _ => []
+
+/-- the type names used in a syntax-tree type -/
+def VarType.names : VarType → List Bytes
+  | .named n _ => [n]
+  | .vector t => t.names
+  | .map a b => a.names ++ b.names
+  | .array t _ => t.names
+  | .prim _ _ => []
+
+/-- "every named type is defined in the same file": unqualified and the name of a struct or enum of
+the module -/
+def nameDeclared (m : Module) (n : Bytes) : Bool :=
+  countColon2 n = 0 && (m.structs.any (fun st => st.name = n) || m.enums.any (fun e => e.name = n))
+
+/-- "a default by name is an enumerator of exactly one enum of the module" -/
+def defaultResolvable (m : Module) (d : Bytes) : Bool :=
+  (enumHits (if hasColon2 d then splitSecond d else d) m.enums).length = 1
+
+/-- semantic side conditions of a syntax tree (single file): named types declared, name defaults
+resolvable, `= earlierName` enumerators found by `genEnum`'s scan -/
+def semOK (v : Variant) (f : TarsFile) : Bool :=
+  let m := f.module
+  f.includes.isEmpty &&
+  m.structs.all (fun st => st.mb.all fun x =>
+    x.type.names.all (nameDeclared m) && (!(x.dflt ≠ [] && x.defType = .name) || defaultResolvable m x.dflt)) &&
+  m.interfaces.all (fun i => i.funcs.all fun fn =>
+    fn.args.all (fun a => a.type.names.all (nameDeclared m)) &&
+    (match fn.retType with | none => true | some t => t.names.all (nameDeclared m))) &&
+  m.enums.all (fun e => enumRefsOk v e.mb)
 
 end Tars.Idl
